@@ -720,7 +720,7 @@ func (f *flow) stmt(n ast.Node, s *astate) []*astate {
 			if !guarded {
 				c.flags = append(c.flags, "position++ at "+s.pos+" without a successful test excluding endSymbol on this path (possible values of buffer[position]: {"+k+"})")
 			}
-			c.pos = "A{" + k + "}(" + s.pos + ")"
+			c.pos = "A(" + s.pos + ")"
 			return []*astate{c}
 		}
 		f.und = append(f.und, "inc/dec not modelled: "+nodeStr(f.gf.in.Fset, x))
@@ -1037,7 +1037,7 @@ func (f *flow) advance(s *astate, yes string) []*astate {
 	}
 	c := s.clone()
 	c.know[s.pos] = yes
-	c.pos = "A{" + yes + "}(" + s.pos + ")"
+	c.pos = "A(" + s.pos + ")"
 	return []*astate{c}
 }
 
@@ -1107,7 +1107,7 @@ func posCompare(l, r string) (canEq, canNe bool) {
 			return true, true // unrelated terms
 		}
 		head := t[:i]
-		if strings.HasPrefix(head, "A{") || strings.HasPrefix(head, "Str[") {
+		if head == "A" || strings.HasPrefix(head, "A{") || strings.HasPrefix(head, "Str[") {
 			strict = true
 		}
 		t = t[i+1 : len(t)-1]
